@@ -30,7 +30,8 @@ HL2 == { <<>>, << [n |-> "X-A", v |-> "ea2"] >>, << [n |-> "x-c", v |-> "ec"] >>
          << [n |-> "X-A", v |-> "ea2"], [n |-> "Host", v |-> "AMMOHOST2"] >> }
 HL3 == { <<>>, << [n |-> "X-A", v |-> "ea3"] >> }
 FEntry(hl, u, b) == [hl |-> hl, uri |-> u, body |-> b]
-FileOpts == { <<>>, OptAlpha }
+\* (the third list repeats a name: where no header line defines X-C, BOTH option values arrive, in option order)
+FileOpts == { <<>>, OptAlpha, OptAlphaBig }
 FileBody(f, k) == IF f = "uri" \/ k # 2 THEN "" ELSE "k=v&x=%20 two {\"j\":[1,2]}"
 FileCases(fmts, sslModes) ==
     UNION { { [kind |-> "file", fmt |-> f, ssl |-> s, preload |-> p, opts |-> o,
